@@ -156,3 +156,25 @@ theorem minList_mem (l : List Rat) (h : l ≠ []) : minList l ∈ l := by
     · simp [minList, h3]
 
 end SSM
+
+namespace SSM
+
+/-- a row is in `lowest(rtol, atol)` iff it is a row whose energy lies within `atol + rtol·|m|` of the least
+    energy `m` — the tolerance is scaled by the *minimum*, not by the row's own energy -/
+theorem mem_lowestRows (rows : List Row) (rtol atol : Rat) (r : Row) :
+    r ∈ lowestRows rows rtol atol ↔
+      r ∈ rows ∧ rabs (r.energy - minList (rows.map (·.energy))) ≤ atol + rtol * rabs (minList (rows.map (·.energy))) := by
+  unfold lowestRows
+  split
+  · rename_i h
+    simp only [List.isEmpty_iff] at h
+    subst h
+    simp
+  · rw [maskSelect_map, List.mem_filter]
+    simp [isclose]
+
+theorem filterTruthy_spec (rows : List Row) (val : Row → Rat) :
+    filterTruthy rows val = rows.filter (fun r => decide (val r ≠ 0)) :=
+  maskSelect_map rows _
+
+end SSM
